@@ -189,7 +189,7 @@ BUILTIN_LAST = {k.split()[-1] for k in BUILTIN_TYPES}
 
 IDCH = r'[A-Za-z_0-9.$#~]'
 # an identifier carrying a uid:  nameD_123  or anonymous D_123
-UIDTOK = re.compile(r'(?<![A-Za-z_0-9.$#~])((?:[A-Za-z_~]' + IDCH + r'*?)?)D_(\d+)(?![A-Za-z_0-9])')
+UIDTOK = re.compile(r'(?<![A-Za-z_0-9.$#~])((?:[A-Za-z_~]' + IDCH + r'*?)??)D_(\d+)(?![A-Za-z_0-9])')
 
 class Unit:
     def __init__(self, cfg, ssa, opt, cls=None):
@@ -286,6 +286,8 @@ class FuncRenderer:
         t = t.replace('&', '*')
         if '(*)' in t or re.search(r'\(\*\w*\)', t):
             return 'void *'
+        # anonymous unscoped enum (no fixed underlying type can be named in the dump): g++ gives it unsigned int
+        t = re.sub(r'(?:enum )?\._anon_\d+D_\d+', 'unsigned int', t)
         def rep(m):
             name, uid = m.group(1), m.group(2)
             return '@U%s:%s@' % (uid, name)
@@ -424,7 +426,7 @@ class FuncRenderer:
         s = re.sub(r'(operator ?)((?:new|delete)(?:\[\])?|\(\)|\[\]|->\*?|[^\w\s(]+|)D_(\d+) \(',
                    lambda m: rep_op(self, m), s)
         s = re.sub(r'(__(?:ct|dt)_(?:comp|base|del) )()D_(\d+) \(', lambda m: rep_op(self, m), s)
-        s = re.sub(r'(?<![A-Za-z_0-9.$#~>])()((?:[A-Za-z_~]' + IDCH + r'*?)?)D_(\d+) \(', rep, s)
+        s = re.sub(r'(?<![A-Za-z_0-9.$#~>])()((?:[A-Za-z_~]' + IDCH + r'*?)??)D_(\d+) \(', rep, s)
         return s
 
     def mem_refs(self, s):
@@ -491,7 +493,7 @@ class FuncRenderer:
             if name == '':
                 return '%s@B%s@' % (op, uid)
             return op + re.sub(r'[.$#~]', '_', name)
-        s = re.sub(r'(->|\.)((?:[A-Za-z_]' + IDCH + r'*?)?)D_(\d+)(?![A-Za-z_0-9])', fld, s)
+        s = re.sub(r'(->|\.)((?:[A-Za-z_]' + IDCH + r'*?)??)D_(\d+)(?![A-Za-z_0-9])', fld, s)
         def var(m):
             tok = m.group(0)
             if tok in self.vars:
@@ -982,7 +984,7 @@ class Renderer:
         structs = [[uid, name, self.unit.struct_q.get(uid)] for uid, name in sorted(self.struct_refs)]
         sigs = []
         def base_tok(raw):
-            m = re.search(r'(?:(struct|union|enum) )?((?:[A-Za-z_]' + IDCH + r'*?)?)D_(\d+)', raw)
+            m = re.search(r'(?:(struct|union|enum) )?((?:[A-Za-z_]' + IDCH + r'*?)??)D_(\d+)', raw)
             if not m:
                 return None
             kind = m.group(1) or 'scalar'
